@@ -148,12 +148,12 @@ def gen_ref_archive(args):
     deleted = rng.choice([0, 0, 2, 5])
     listfile = rng.random() < 0.8
     ss = 512 << shift
-    sizes = [0, 1, 3, 5, ss - 1, ss, ss + 1, 3 * ss + 7, ss + 2, ss + 3, 6, 7]
+    sizes = [0, 1, 3, 5, ss - 1, ss, ss + 1, 3 * ss + 7, ss + 2, ss + 3, 6, 7, 2 * ss, ss + 4, 3 * ss + 8, 4, 8]
     files, mf = [], []
     for i, n in enumerate(sizes):
-        cls = CLASSES[(i + k) % len(CLASSES)]
+        cls = CLASSES[(i + k) % len(CLASSES)] if i < 12 else "random"
         data = _content(rng, cls, n)
-        comp = rng.choice(["Dir", "World\\Maps", "a", "Interface\\Glue\\XML"]) if i % 3 else ""
+        comp = (rng.choice(["Dir", "World\\Maps", "a", "Interface\\Glue\\XML"]) if i % 3 else "") if i < 12 else ("" if i % 2 == 0 else "Dir")
         name = (comp + "\\" if comp else "") + f"File{k}_{i}.{rng.choice(['blp', 'M2', 'txt'])}"
         files.append(refmpq.RefFile(name, data, method, encm > 0, encm == 2, single and n > 0))
         p = os.path.join(outdir, f"b-{k}.f{i}")
@@ -212,7 +212,7 @@ def run(tier, seed, scratch, t0):
     # ---- direction B
     bdir = os.path.join(scratch, "B")
     os.makedirs(bdir)
-    nb = 1500 if tier == "thorough" else 160
+    nb = 1500 if tier == "thorough" else 100
     with ProcessPoolExecutor(max_workers=sup.NCPU) as ex:
         list(ex.map(gen_ref_archive, [(k, seed, bdir) for k in range(nb)], chunksize=8))
     res.add_counter("b_archives_written_by_reference", nb)
